@@ -244,7 +244,7 @@ def parse_op(line):
     """-> (head tokens, n, d, extra, sizes, rows) of an op line"""
     t = line.split()
     op = t[0]
-    nhead = {"meanvar": 1, "unitint": 1, "unitvar": 2, "linreg": 4, "whiten": 3, "zca": 3, "pca": 4, "lda": 3, "wlda": 4}[op]
+    nhead = {"meanvar": 1, "unitint": 1, "unitvar": 2, "linreg": 4, "whiten": 3, "zca": 3, "pca": 4, "lda": 3, "wlda": 3}[op]
     head = t[:nhead]
     extra = int(t[3]) if op == "linreg" else 1 if op == "lda" else 2 if op == "wlda" else 0
     n, d, nb = int(t[nhead]), int(t[nhead + 1]), int(t[nhead + 2])
@@ -386,10 +386,10 @@ def build(ctx):
 def nontrivial(line):
     try:
         head, n, d, extra, sizes, rows = parse_op(line)
+        const = any(all(r[j] == rows[0][j] for r in rows) for j in range(d))
+        return len(sizes) > 1 or const or d > n
     except Exception:
         return False
-    const = any(all(r[j] == rows[0][j] for r in rows) for j in range(d))
-    return len(sizes) > 1 or const or d > n
 
 
 def run(ctx):
